@@ -57,7 +57,7 @@ PLANS = {
                 "variants, comments) loaded with CharacterCategory::from_reader; for EVERY Unicode scalar value (1,112,064 per "
                 "definition, exhaustive per definition) the reported class set is compared with the union over covering lines "
                 "(DEFAULT if none); the same lines in shuffled order must give the same answer; iter() must tile the code space "
-                "and agree. distinct_nontrivial = distinct definitions in which some code point is covered by >=2 lines. Every definition is also written to one fixed path (rewritten each time) and loaded with CharacterCategory::from_file; range ends +-1 and anchors are compared.",
+                "and agree. distinct_nontrivial = distinct definitions in which some code point is covered by >=2 lines. Every definition is also written to one fixed path (rewritten each time) and loaded with CharacterCategory::from_file; range ends +-1 and anchors are compared.. Ranges ending at U+D7FF / U+10FFFF are generated as well (the reader refuses them today; should they load, every check applies)",
         "assumptions": COMMON_ASSUMPTIONS + ["only definitions that load are judged (the property says so)"],
     },
     "C08": lambda tier: {
@@ -90,7 +90,7 @@ PLANS = {
                 "255 and 65535; loaded aligned and from an odd address) x texts x EVERY byte offset (also inside characters): the multiset "
                 "of (dictionary, word number, end) from LexiconSet::lookup is compared with an exact-match scan of the source CSV keys; "
                 "MorphemeList::lookup(q) with rows whose key == q; hook H3 must record no out-of-range trie / table access. "
-                "distinct_nontrivial = distinct (world,text,offset) with at least one expected match. Keys with 128 / 255 / 256 / 257 / 300 entries (over the format limit of 127: compiler must reject, or lookup must return all); one world per quick run with ~300,000 keys, i.e. a double array of >2^20 units (unit count read from the binary image), every key looked up.",
+                "distinct_nontrivial = distinct (world,text,offset) with at least one expected match. Keys with 128 / 255 / 256 / 257 / 300 entries (over the format limit of 127: compiler must reject, or lookup must return all); one world per quick run with ~300,000 keys, i.e. a double array of >2^20 units (unit count read from the binary image), every key looked up.. Texts with a NUL strictly inside an occurrence of a key",
         "assumptions": COMMON_ASSUMPTIONS,
     },
     "C05": lambda tier: {
@@ -98,7 +98,7 @@ PLANS = {
         "stages": [dict(main_stage(40, 300, tier), needs=["cli"])] + ([] if tier == "quick" else [
             dict(main_stage(60, 900, tier, build="miri", name="miri"), shards=16)]),
         "require": ["fields_compared", "matrix_cells_compared", "recompilations_compared", "loads_at_other_alignment",
-                    "cli_builds_from_several_files"],
+                    "cli_builds_from_several_files", "worlds_with_sparse_matrix_text"],
         "rule": "seeded lexicons (homographs, non-indexed rows, differing headword/reading/normalised forms, dictionary-form references, "
                 "numeric and inline A/B split references, word structure, 0-127 synonym ids, \\u escapes, strings of 1/126/127/128/129/255/256/"
                 "1000/10922 UTF-16 units incl. surrogate pairs, keys of 126-255 bytes, empty forms) + square / non-square matrices with "
@@ -106,7 +106,7 @@ PLANS = {
                 "loaded dictionary is compared with the source model; each input is compiled twice (byte comparison) and, in every fourth world, "
                 "once more with `sudachi build` from 1-3 lexicon files whose command order is not alphabetical (bytes equal except the time stamp); the bytes are "
                 "re-loaded from base+1..base+7 and all observations compared. distinct_nontrivial = distinct lexicons containing split "
-                "references that passed all comparisons",
+                "references that passed all comparisons. Every third world uses a matrix text that lists only the non-zero cells, last line first (unlisted cells cost 0)",
         "assumptions": COMMON_ASSUMPTIONS + ["an empty reading / normalised form in the CSV is not compared (format's spelling of 'same as headword')",
                                              "user-dictionary dic_form is always '*' in the main generator (D18)",
                                              "determinism is checked in-process (std HashMap seeds differ per instance, so hash-order dependence would show)"],
@@ -182,7 +182,7 @@ PLANS = {
                 "covering the numeral whose normalized_form is the expected rendering. Mutated (1 in 4): every joined token is re-evaluated "
                 "by an independent evaluator: well-formed -> value must match, clearly malformed (separator groups, dangling / adjacent "
                 "points, small units out of order) -> must not exist, unspecified shapes counted. distinct_nontrivial = distinct "
-                "well-formed numerals that were joined with the right value. Runs of digits and separators only with a bad grouping (own generator): no piece may be joined across a separator.",
+                "well-formed numerals that were joined with the right value. Runs of digits and separators only with a bad grouping (own generator): no piece may be joined across a separator.. A point directly followed by a unit (\"8.万5\") counts as a dangling point",
         "assumptions": COMMON_ASSUMPTIONS + ["repeated large units (known finding D22) are judged only through the labelled probe",
                                              "a fraction directly after a unit and decimal coefficients of large units are 'unspecified'"],
     },
@@ -254,13 +254,13 @@ PLANS = {
                 "declaring >=2 units yields exactly those word ids (from the source model) with ranges = key lengths, last unit to the parent "
                 "end, partitioning the parent's original range; other tokens are unchanged; split_into of each C morpheme into a fresh and "
                 "into a recycled output list equals the direct analysis (>=2 units) or reports nothing (no units). distinct_nontrivial = "
-                "distinct (world,text) containing at least one split token that passed. Every fourth world has the path-rewrite plugins and numeral compounds with declared units (a joined token declares none and must stay whole in A/B); split_into is also called with an output list that already holds morphemes (must append the units / report false and append nothing).",
+                "distinct (world,text) containing at least one split token that passed. Every fourth world has the path-rewrite plugins and numeral compounds with declared units (a joined token declares none and must stay whole in A/B); split_into is also called with an output list that already holds morphemes (must append the units / report false and append nothing).. In every second world where the mode is set after the field request, a first analysis in mode C is made before set_mode",
         "assumptions": COMMON_ASSUMPTIONS + ["words declaring exactly one unit are not judged for the split API (statement speaks of >=2 or none)"],
     },
     "C12": lambda tier: {
         "level": "exploration",
         "stages": [main_stage(60, 300, tier)],
-        "require": ["rows_checked", "system_rows_compared_with_zero_layer_load", "morphemes_checked", "oov_morphemes_checked",
+        "require": ["rows_checked", "system_rows_compared_with_zero_layer_load", "morphemes_checked", "oov_morphemes_checked", "stacks_loaded_from_files", "morpheme_passes_with_a_field_subset",
                     "fifteenth_dictionary_rejected_with_error", "plugin_registered_pos_2"],
         "rule": "seeded stacks of 0, 1, 2, 3-13, 14 and 15 user dictionaries over a generated system dictionary; each layer compiled the way the "
                 "CLI does (against a plain load of the system dictionary), with POS that exist only in that layer, POS shared between layers "
@@ -269,7 +269,7 @@ PLANS = {
                 "(declared POS strings, references resolved to layer 0 or the own layer and the right row, found by lookup under its own "
                 "dictionary number); every system row compared with a zero-layer load; texts containing each word + plugin-OOV triggers: "
                 "dictionary_id / is_oov / part_of_speech of every morpheme; 15 layers must give an Err (no panic, no acceptance). "
-                "distinct_nontrivial = distinct stacks with >=2 layers (or the 15-layer rejection) that passed",
+                "distinct_nontrivial = distinct stacks with >=2 layers (or the 15-layer rejection) that passed. Every second stack of 1-8 layers is also loaded from files through JapaneseDictionary::from_cfg (systemDict / userDict paths) with one user dictionary listed twice in a row: every listed file is a layer of its own (lookup under its number, POS, split references). The morpheme-level pass runs a second time on a tokenizer that requests only part of the fields (POS among them)",
         "assumptions": COMMON_ASSUMPTIONS + ["user-dictionary dic_form is '*' (known defect D18 is not part of this property's generator)"],
     },
     "C20": lambda tier: {
@@ -338,14 +338,14 @@ PLANS = {
                 "16 scheduler seeds (data-race detection, 2-3 threads). Python half: 8 threading.Thread workers over tokenizers created from "
                 "ONE Dictionary, 300 analyses each, results vs a sequential pass, interpreter exit status (no race detector applies to "
                 "CPython). Evidence of interleaving: operations are stamped from one global atomic clock; overlapping_operation_pairs counts "
-                "cross-thread overlaps. distinct_nontrivial = distinct thread-order signatures of the operation logs. Thread counts 2, 4, 8, 16, 40 and 72.",
+                "cross-thread overlaps. distinct_nontrivial = distinct thread-order signatures of the operation logs. Thread counts 2, 4, 8, 16, 40 and 72.. Every sixth repetition has 1,500 lemmas + 1,500 inflected words referring to them as dictionary form, and texts made of the inflected words",
         "assumptions": COMMON_ASSUMPTIONS + ["absence of a TSan / Miri report covers only the schedules and accesses executed",
                                              "Miri runs without the aliasing models (DESIGN.md 2.2)"],
     },
     "C19": lambda tier: {
         "level": "exploration",
         "stages": [dict(main_stage(90, 400, tier, death_is_violation=False), needs=["py", "cli"])],
-        "require": ["scenarios", "py_cases", "py_fields_compared", "py_splits_compared", "py_lookups", "py_history_probes", "py_py_builds", "cli_lines_whose_content_ends_with_cr",
+        "require": ["scenarios", "py_cases", "py_fields_compared", "py_splits_compared", "py_lookups", "py_history_probes", "py_py_builds", "py_override_checks", "cli_lines_whose_content_ends_with_cr",
                     "cli_runs_compared", "cli_files_with_blank_lines"],
         "rule": "per scenario a generated world (dictionaries + user dictionaries + definition files + sudachi.json with a random plugin stack) "
                 "is written to a directory; the expected results are computed in-process with the core library; (Python) the freshly built "
@@ -357,7 +357,7 @@ PLANS = {
                 "incl. PanicException are not crashes). (CLI) 3 generated multi-line files per scenario (blank lines, CRLF, no final "
                 "newline, several sentences per line) x mode x {default, -a, -w} x --split-sentences {yes, no, only} x {stdin, file} x "
                 "{stdout, -o}: output must equal the harness's rendering of the library result per line / sentence. "
-                "distinct_nontrivial = distinct scenarios / files that matched completely. build_system_dic / build_user_dic (paths and bytes, lexicon split over files in non-alphabetical command order) must write the library's bytes (time stamp excluded); with an explicit projection the surface() of split results must equal the projected field; CLI input lines whose content ends with or contains a carriage return.",
+                "distinct_nontrivial = distinct scenarios / files that matched completely. build_system_dic / build_user_dic (paths and bytes, lexicon split over files in non-alphabetical command order) must write the library's bytes (time stamp excluded); with an explicit projection the surface() of split results must equal the projected field; CLI input lines whose content ends with or contains a carriage return.. Dictionary.lookup(\"\", out=list) must leave the list empty; a tokenizer created with a field request and called with a per-call mode override must give the boundaries of a tokenizer created in that mode with the same request, and its next call without override those of a new tokenizer; an exception in a worker thread is a mismatch",
         "assumptions": COMMON_ASSUMPTIONS + ["the column format is the one documented in README (surface TAB pos TAB normalized [TAB dictionary "
                                              "TAB reading TAB dictionary-id TAB synonyms [TAB (OOV)]], EOS per sentence)",
                                              "Morpheme.split is compared with add_single=False"],
